@@ -46,6 +46,17 @@ def families(tier):
                             params=dict(first_b=first_b, par_a=par_a, par_b=par_b),
                             scn=dict(buses={'A': dict(parallel=par_a), 'B': dict(parallel=par_b)}, order=o, handlers=hs, main=main, actors=actors,
                                      forwards=[('A', 'B')] if fwd else [], settle=3.0)))
+    # first use of bus B is wait_until_idle() / a dispatch made from inside a handler of A, before anything else touched B
+    for how, par_a, cshape in itertools.product(['idle_then_ff', 'idle_then_aw', 'ff_idle'], (False, True), ['pause', 'ret']):
+        hp = {'idle_then_ff': [('idle', 'B'), ('disp', 'B', 'C', 'ff'), ('pause',), ('pause',)], 'idle_then_aw': [('idle', 'B'), ('disp', 'B', 'C', 'ff'), ('pause',), ('disp', 'B', 'C2', 'await')],
+              'ff_idle': [('disp', 'B', 'C', 'ff'), ('pause',), ('idle', 'B'), ('pause',)]}[how]
+        hs = [dict(bus='A', pat='P', name='hp', prog=hp), dict(bus='B', pat='C', name='hc', prog=[('pause',)] if cshape == 'pause' else [('ret', 1)]),
+              dict(bus='A', pat='X', name='hxA', prog=[('pause',)]), dict(bus='B', pat='X', name='hxB', prog=[('pause',)])]
+        for o in (['A', 'B'], ['B', 'A']):
+            out.append(dict(prop='C06', family='c06.mutex.' + ('parallel' if par_a else 'serial'), id=f'c06/firstuse-{how}-pa{int(par_a)}-{cshape}-o{"".join(o)}', cfg=dict(cfg, window=0.35),
+                            params=dict(first_b='wait_until_idle_in_handler', par_a=par_a, par_b=False),
+                            scn=dict(buses={'A': dict(parallel=par_a), 'B': {}}, order=o, handlers=hs, main=[('disp', 'A', 'P', 'ff'), ('pause',), ('disp', 'B', 'X', 'ff'), ('disp', 'A', 'X', 'ff')],
+                                     actors=[], forwards=[], settle=3.0)))
     # parallel_handlers bus: two sibling handlers of one event EACH awaiting a child (on the other / the same bus)
     for b1, b2, par_b, k in itertools.product('AB', 'AB', (False, True), (0, 1)):
         hs = [dict(bus='A', pat='P', name='h1', prog=[('pause',)] * k + [('disp', b1, 'C', 'await')]),
